@@ -10,7 +10,7 @@ LEVEL = 'exploration'
 RULE = ('a fake usb1 module (python-libusb1\'s documented surface) is placed in sys.modules and wired to the device model; (a) contract grid: timeouts {None, 0, 0.001, 0.5, 1, 2.5} x default '
         'timeout {None, 3} x read sizes {1, 24, 4096, 1 MiB} x kernel driver active/inactive x two USB devices on the bus (only one is ADB) x selection by serial / port path / first; '
         '(b) a whole AdbDeviceUsb session with backend short transfers at every placement of <=k deviations; (c) every USBError subclass raised at EVERY bulkRead/bulkWrite call index of a '
-        'session; (d) errors while closing, use after close, double close, reconnect; oracle: claimInterface(ADB interface number) exactly once per connect after detaching an active kernel '
+        'session, and the device unplugged at every such index (all later backend calls, the serial-number lookup included, raise USBErrorNoDevice); (d) errors while closing, use after close, double close, reconnect; oracle: claimInterface(ADB interface number) exactly once per connect after detaching an active kernel '
         'driver, bulkWrite only to the OUT and bulkRead only from the IN endpoint of the ADB interface, length == requested, timeout == int(1000 x t) (default x 1000 when None), returned data '
         'never longer than requested, libusb errors surface as UsbReadFailedError / UsbWriteFailedError, after close those same errors and no backend call, session results and host packets '
         '== the in-memory session; non-trivial = every case; distinct = distinct parameter tuple x choice list')
@@ -144,6 +144,9 @@ def run_session(params, ch):
     ref_res, ref_host, ref_fs = mem_reference()
     faults = {int(k): v for k, v in params.get('faults', [])}
     s, w = usb_session(ch, scen.std_cfg(), default_timeout=params.get('D'), frag=params.get('frag', False), faults=faults)
+    if params.get('unplug') is not None:
+        w.unplug_at = params['unplug']
+        faults = {params['unplug']: 'nodevice'}
     try:
         viol = []
         res = []
@@ -178,6 +181,10 @@ def run_session(params, ch):
             for i, (a, b) in enumerate(zip(res[:-1], ref_res)):
                 if a != b:
                     viol.append({'msg': 'operation %d before the fault returned %r, expected %r' % (i, a, b)})
+        if params.get('unplug') is not None:
+            rc = s.op(('close',))
+            if rc != ('ok', None):
+                viol.append({'msg': 'close() after the device was unplugged gave %r' % (rc[:2],)})
         check_calls(w, viol, params.get('D'))
         claims = [c for c in w.calls if c[0] == 'claimInterface']
         if claims != [('claimInterface', 1)]:
@@ -248,6 +255,7 @@ def parts(tier):
         fakeusb.WORLD.env = None
         s.finish()
     sc = [{'faults': [[i, e]], 'D': None} for i in idx for e in ('timeout', 'nodevice', 'io', 'pipe')]
+    sc += [{'unplug': i, 'D': None} for i in idx]
     out.append(Part('backend-errors', sc, run_session, what='every USBError subclass at every bulkRead/bulkWrite call index of a session', bound='%d (index, error) cases' % len(sc)))
     sc = [{'at': a, 'err': e} for a in (0, 1) for e in ('nodevice', 'io', 'busy', 'notfound')]
     out.append(Part('close-errors', sc, run_close_errors, what='libusb errors while closing, then use after close / double close', bound='%d cases' % len(sc), min_outcomes=1))
